@@ -17,6 +17,7 @@ import (
 	"sort"
 	"strings"
 	"sync"
+	"time"
 
 	bitcoin_reader "github.com/tokenized/bitcoin_reader"
 	"github.com/tokenized/logger"
@@ -491,12 +492,33 @@ type pbcCall struct {
 	Min   int      `json:"min"`
 	Max   int      `json:"max"`
 	Peers []string `json:"peers"`
+	// 1-based index of the call of the same round that the same caller completed before this one (0: none)
+	After int `json:"after"`
 }
 
 type pbcTrace struct {
 	ID     int         `json:"id"`
 	Rounds [][]pbcCall `json:"rounds"`
 	Final  []pbRecord  `json:"final"`
+	// what a fresh repository loads from the storage after the last round (in any order), and whether a
+	// Save was ever called
+	Saved  bool       `json:"saved"`
+	Loaded []pbRecord `json:"loaded"`
+}
+
+// slowStore: a storage whose writes take a little while, as a remote or busy storage would.
+type slowStore struct {
+	*storage.MockStorage
+	mu  sync.Mutex
+	rng *rand.Rand
+}
+
+func (s *slowStore) Write(ctx context.Context, key string, body []byte, o *storage.Options) error {
+	s.mu.Lock()
+	d := time.Duration(s.rng.Intn(400)) * time.Microsecond
+	s.mu.Unlock()
+	time.Sleep(d)
+	return s.MockStorage.Write(ctx, key, body, o)
 }
 
 func peersConcMain(args []string) int {
@@ -522,8 +544,9 @@ func peersConcMain(args []string) int {
 	deltas := []int{-2, 1, 3}
 	bounds := []int{-1, 0, 2}
 	for id := 0; id < *traces; id++ {
-		repo := bitcoin_reader.NewPeerRepository(storage.NewMockStorage(), "")
-		tr := pbcTrace{ID: id}
+		store := &slowStore{MockStorage: storage.NewMockStorage(), rng: rand.New(rand.NewSource(*seed + int64(id)))}
+		repo := bitcoin_reader.NewPeerRepository(store, "")
+		tr := pbcTrace{ID: id, Loaded: []pbRecord{}}
 		for r := 0; r < *rounds; r++ {
 			k := 1 + rng.Intn(*par)
 			calls := make([]pbcCall, k)
@@ -534,7 +557,11 @@ func peersConcMain(args []string) int {
 				if rng.Intn(3) == 0 {
 					c.A = addrs[rng.Intn(len(addrs))]
 				}
-				switch rng.Intn(6) {
+				switch rng.Intn(8) {
+				case 6, 7:
+					c.Op = "save"
+					c.A = ""
+					tr.Saved = true
 				case 0, 1:
 					c.Op = "add"
 				case 2, 3:
@@ -550,28 +577,58 @@ func peersConcMain(args []string) int {
 				}
 				c.Peers = []string{}
 			}
+			if k >= 3 && rng.Intn(4) == 0 {
+				// two Saves around an update of the hot address: on a storage whose writes take a while the
+				// older snapshot must not be the one that stays
+				calls[0] = pbcCall{Op: "save", Peers: []string{}}
+				calls[1] = pbcCall{Op: "score", A: hot, D: deltas[rng.Intn(len(deltas))], Peers: []string{}}
+				if rng.Intn(2) == 0 {
+					calls[1] = pbcCall{Op: "add", A: hot, Peers: []string{}}
+				}
+				// the second Save is issued by the caller of the update, after it returned
+				calls[2] = pbcCall{Op: "save", Peers: []string{}, After: 2}
+				tr.Saved = true
+			}
+			delays := make([]int, k)
+			for i := range delays {
+				delays[i] = rng.Intn(60)
+			}
 			var start, done sync.WaitGroup
 			start.Add(1)
+			exec := func(c *pbcCall) {
+				switch c.Op {
+				case "add":
+					c.Ok, _ = repo.Add(ctx, pbAddr[c.A])
+				case "score":
+					c.Ok = repo.UpdateScore(ctx, pbAddr[c.A], int32(c.D))
+				case "time":
+					c.Ok = repo.UpdateTime(ctx, pbAddr[c.A])
+				case "save":
+					c.Ok = repo.Save(ctx) == nil
+				case "get":
+					list, _ := repo.Get(ctx, int32(c.Min), int32(c.Max))
+					for _, p := range list {
+						c.Peers = append(c.Peers, pbAbstract(p.Address))
+					}
+					sort.Strings(c.Peers)
+				}
+			}
 			for i := range calls {
+				if calls[i].After != 0 {
+					continue
+				}
 				done.Add(1)
-				go func(c *pbcCall) {
+				go func(i int, delay int) {
 					defer done.Done()
 					start.Wait()
-					switch c.Op {
-					case "add":
-						c.Ok, _ = repo.Add(ctx, pbAddr[c.A])
-					case "score":
-						c.Ok = repo.UpdateScore(ctx, pbAddr[c.A], int32(c.D))
-					case "time":
-						c.Ok = repo.UpdateTime(ctx, pbAddr[c.A])
-					case "get":
-						list, _ := repo.Get(ctx, int32(c.Min), int32(c.Max))
-						for _, p := range list {
-							c.Peers = append(c.Peers, pbAbstract(p.Address))
+					time.Sleep(time.Duration(delay) * time.Microsecond)
+					exec(&calls[i])
+					for j := range calls {
+						if calls[j].After == i+1 {
+							exec(&calls[j])
 						}
-						sort.Strings(c.Peers)
 					}
-				}(&calls[i])
+				}(i, delays[i])
 			}
 			start.Done()
 			done.Wait()
@@ -585,6 +642,21 @@ func peersConcMain(args []string) int {
 				t = 1
 			}
 			tr.Final = append(tr.Final, pbRecord{A: n, S: int(book[n][0]), T: t})
+		}
+		if tr.Saved {
+			repo2 := bitcoin_reader.NewPeerRepository(store.MockStorage, "")
+			if err := repo2.Load(ctx); err != nil {
+				tr.Loaded = append(tr.Loaded, pbRecord{A: "load error: " + err.Error()})
+			} else {
+				book2, names2, _ := pbBook(ctx, repo2)
+				for _, n := range names2 {
+					t := 0
+					if book2[n][1] != 0 {
+						t = 1
+					}
+					tr.Loaded = append(tr.Loaded, pbRecord{A: n, S: int(book2[n][0]), T: t})
+				}
+			}
 		}
 		enc.Encode(tr)
 	}
